@@ -233,6 +233,11 @@ func (f *InterestNameField) GenReadFrom() (string, error) {
 
 	g.printlnf("{")
 
+	// The length is checked against the remaining input before allocating (l is attacker-controlled).
+	g.printlnf("if rem := reader.Length() - reader.Pos(); rem < 0 || l > enc.TLNum(rem) {")
+	g.printlnf("err = io.ErrUnexpectedEOF")
+	g.printlnf("} else {")
+
 	g.execTemplS("NameEncodeInto", `
 		value.{{.Name}} = make(enc.Name, l/2+1)
 		startName := reader.Pos()
@@ -264,6 +269,7 @@ func (f *InterestNameField) GenReadFrom() (string, error) {
 	g.printlnf("if err == nil {")
 	g.printlnf("coveredPart := reader.Range(startName, sigCoverEnd)")
 	g.printlnf("context.%[1]s = append(context.%[1]s, coveredPart...)", f.sigCovered)
+	g.printlnf("}")
 	g.printlnf("}")
 	g.printlnf("}")
 	return g.output()
